@@ -120,8 +120,15 @@ pub fn target_split_bytes(total_bytes: u64, nodes: usize) -> u64 {
 /// data-cost.
 pub fn enumerate_parquet(table: &str, files: &[PathBuf], nodes: usize) -> Result<SplitSet> {
     // Pass 1: row-group inventory, in canonical file order.
+    // Canonical file identity: the path relative to the directory all files
+    // share. For the usual single-directory table that IS the file name; for
+    // a partitioned layout (`p=1/part-0.parquet`, `p=2/part-0.parquet`) it
+    // keeps files with equal names apart, which the bare name cannot — two
+    // splits with one key make the order, and so the digest, depend on the
+    // order of `files`.
+    let base = common_dir(files);
     let mut ordered: Vec<&PathBuf> = files.iter().collect();
-    ordered.sort_by_key(|p| file_key(p));
+    ordered.sort_by_key(|p| file_key(p, &base));
 
     struct RowGroup<'a> {
         path: &'a PathBuf,
@@ -152,7 +159,7 @@ pub fn enumerate_parquet(table: &str, files: &[PathBuf], nodes: usize) -> Result
             total_rows += rows;
             inventory.push(RowGroup {
                 path,
-                file: file_key(path),
+                file: file_key(path, &base),
                 index,
                 rows,
                 bytes,
@@ -215,12 +222,39 @@ pub fn enumerate_parquet(table: &str, files: &[PathBuf], nodes: usize) -> Result
     })
 }
 
-/// The canonical name of a file: its final path component. Two nodes that mount
-/// the same dataset at `/data` and `/mnt/tpch` must agree, and they do.
-fn file_key(path: &Path) -> String {
-    path.file_name()
-        .map(|n| n.to_string_lossy().into_owned())
-        .unwrap_or_else(|| path.to_string_lossy().into_owned())
+/// The canonical name of a file: its path below the directory shared by all
+/// files of the table (just the file name for a single-directory table). Two
+/// nodes that mount the same dataset at `/data` and `/mnt/tpch` must agree,
+/// and they do.
+fn file_key(path: &Path, base: &Path) -> String {
+    match path.strip_prefix(base) {
+        Ok(rel) if rel.components().count() > 0 => rel
+            .components()
+            .map(|c| c.as_os_str().to_string_lossy())
+            .collect::<Vec<_>>()
+            .join("/"),
+        _ => path
+            .file_name()
+            .map(|n| n.to_string_lossy().into_owned())
+            .unwrap_or_else(|| path.to_string_lossy().into_owned()),
+    }
+}
+
+/// The deepest directory that contains every file (the parent of a single
+/// file). Mount-point independent: only what lies BELOW it enters a key.
+fn common_dir(files: &[PathBuf]) -> PathBuf {
+    let mut base: PathBuf = match files.first().and_then(|f| f.parent()) {
+        Some(p) => p.to_path_buf(),
+        None => return PathBuf::new(),
+    };
+    for f in files {
+        while !f.starts_with(&base) {
+            if !base.pop() {
+                return PathBuf::new();
+            }
+        }
+    }
+    base
 }
 
 impl SplitSet {
